@@ -54,6 +54,8 @@ type WriteCase struct {
 	Frames     []Frame `json:"frames"` // what the raw peer received, in order
 	ContentOK  bool    `json:"content_ok"`
 	TextOK     bool    `json:"text_ok"` // the text frame says "EOF"
+	PeerWait   string  `json:"peer_wait,omitempty"` // "timeout": the peer saw no end marker within the bound
+	Skipped    bool    `json:"skipped,omitempty"`
 }
 
 type ReadCase struct {
@@ -65,6 +67,7 @@ type ReadCase struct {
 	ContentOK bool    `json:"content_ok"`
 	TooLong   bool    `json:"too_long"` // a Read returned more than its buffer
 	ZeroNil   int     `json:"zero_nil"` // Reads that returned (0, nil)
+	Skipped   bool    `json:"skipped,omitempty"`
 }
 
 type ReplyCase struct {
@@ -105,6 +108,7 @@ type E2ECase struct {
 	EndMs    int    `json:"end_ms"`
 	SetupErr string `json:"setup_err,omitempty"`
 	Splits   string `json:"splits"`
+	Skipped  bool   `json:"skipped,omitempty"` // not run: this mode already hit three observation bounds
 }
 
 type Case struct {
@@ -204,7 +208,7 @@ func runWrite(r *hx.Rng, big bool, one int) *WriteCase {
 	done := make(chan struct{})
 	go func() {
 		defer close(done)
-		p.server.SetReadDeadline(time.Now().Add(bound))
+		p.server.SetReadDeadline(time.Now().Add(3 * bound))
 		for {
 			t, data, err := p.server.ReadMessage()
 			if err != nil {
@@ -234,10 +238,17 @@ func runWrite(r *hx.Rng, big bool, one int) *WriteCase {
 	}
 	if c.CloseWrite {
 		sc.CloseWrite()
+		select {
+		case <-done:
+		case <-time.After(bound):
+			c.PeerWait = "timeout"
+			p.client.Close()
+			<-done
+		}
 	} else {
 		p.client.Close() // lets the peer's ReadMessage fail
+		<-done
 	}
-	<-done
 	c.ContentOK = bytes.Equal(sent, got)
 	return c
 }
@@ -474,6 +485,7 @@ type appPlan struct {
 type modeWorld struct {
 	w     *e2e.World
 	plans chan *appPlan
+	hung  int // cases of this mode that ran into an observation bound
 }
 
 func classify(err error) string {
@@ -765,6 +777,10 @@ func plan(seed uint64, n, e2eN int, big bool) []spec {
 
 var worlds = map[string]*modeWorld{}
 
+// Cases of a component stream that ran into an observation bound; after
+// three the rest of that stream is skipped (each would wait again).
+var hungStream = map[string]int{}
+
 func runSpec(i int, s spec) (c Case) {
 	c = Case{I: i, Stream: s.stream}
 	defer func() {
@@ -775,9 +791,23 @@ func runSpec(i int, s spec) (c Case) {
 	r := hx.NewRng(s.seed)
 	switch s.stream {
 	case "write":
+		if hungStream["write"] >= 3 {
+			c.Write = &WriteCase{Skipped: true}
+			return c
+		}
 		c.Write = runWrite(r, s.big, s.a)
+		if c.Write.PeerWait == "timeout" {
+			hungStream["write"]++
+		}
 	case "read":
+		if hungStream["read"] >= 3 {
+			c.Read = &ReadCase{Skipped: true}
+			return c
+		}
 		c.Read = runRead(r)
+		if c.Read.Ended == "timeout" {
+			hungStream["read"]++
+		}
 	case "reply":
 		c.Reply = runReply(r)
 	case "pipe":
@@ -793,7 +823,15 @@ func runSpec(i int, s spec) (c Case) {
 			}
 			worlds[s.mode] = mw
 		}
+		if mw.hung >= 3 {
+			// every further case would wait for the same bounds again
+			c.E2E = &E2ECase{Mode: s.mode, Skipped: true}
+			return c
+		}
 		c.E2E = runE2E(r, mw, s.mode, s.a, s.b)
+		if c.E2E.EndKind == "timeout" || c.E2E.SetupErr != "" || c.E2E.C2A.Err == "timeout" || c.E2E.A2C.Err == "timeout" {
+			mw.hung++
+		}
 	}
 	return c
 }
